@@ -73,7 +73,22 @@ var allBinOps = []string{"or", "and", "=", "!=", "<", "<=", ">", ">=", "+", "-",
 func genC08(g *xast.G, depth int) *xast.Expr {
 	t := g.T
 	if depth <= 0 {
-		switch rapid.IntRange(0, 5).Draw(t, "leaf") {
+		switch rapid.IntRange(0, 7).Draw(t, "leaf") {
+		case 6:
+			// path continued after a filter expression: (E)/x, (E)//x, $v//x, (E)[p]//x
+			f := xast.Filter(g.NodeSet(0, false), nil, g.RelPath(0, 2).Steps...)
+			if rapid.Bool().Draw(t, "filterPred") {
+				f.BP = append(f.BP, g.Pred(0))
+			}
+			f.Steps[0].DS = rapid.Bool().Draw(t, "filterDS")
+			return f
+		case 7:
+			if len(g.Env.NodeVars) > 0 {
+				f := xast.Filter(xast.Var(g.Env.NodeVars[0]), nil, g.RelPath(0, 2).Steps...)
+				f.Steps[0].DS = rapid.Bool().Draw(t, "varDS")
+				return f
+			}
+			return g.NodeSet(1, false)
 		case 0:
 			return g.Number(0)
 		case 1:
